@@ -11,7 +11,17 @@ declare -A EXTRA=(
   [C05-1]="C04" [C06-1]="C04" [C04-2]="C05 C06" [C01-2]="C10 C17" [C10-1]="C01" [C17-2]="C01"
 )
 OUT=seeded/REGRESSION.txt
+# LANES=n runs n seeds at a time (each lane has its own cargo target directory)
+if [ -n "${LANES:-}" ] && [ -z "${LANE:-}" ]; then
+  IDS=("$@"); if [ ${#IDS[@]} -eq 0 ]; then IDS=($(ls seeded | grep -E '^C[0-9]+-[0-9]+$')); : > $OUT; fi
+  printf '%s\n' "${IDS[@]}" | xargs -P "$LANES" -I{} env LANE=1 "$0" {}
+  sort -o $OUT $OUT
+  exit 0
+fi
 IDS=("$@"); if [ ${#IDS[@]} -eq 0 ]; then IDS=($(ls seeded | grep -E '^C[0-9]+-[0-9]+$')); : > $OUT; fi
+if [ -n "${LANE:-}" ]; then
+  for n in 1 2 3 4 5 6 7 8; do if mkdir /tmp/mut_lane_$n.lock 2>/dev/null; then export MUT_TG=/tmp/mut_tg_lane$n; trap "rmdir /tmp/mut_lane_$n.lock" EXIT; break; fi; done
+fi
 for id in "${IDS[@]}"; do
   p=${id%%-*}
   res=$(timeout 5400 ./tools/mutcheck.sh seeded/$id/patch.diff $p ${EXTRA[$id]:-} 2>&1)
